@@ -48,6 +48,7 @@ def run(chk):
     chk.queue(exhaustive_small(rng), 'small-contents')
     chk.exhaustive = True
     chk.queue([serialprogs.window_program(rng, big=thorough) for _ in range(8000 if thorough else 2000)], 'random-windows')
+    chk.queue([serialprogs.tight_window_program(rng) for _ in range(3000 if thorough else 600)], 'windows-at-the-end')
     chk.queue([serialprogs.tofile_program(rng) for _ in range(2000 if thorough else 500)], 'random-tofile-chunks')
     chk.flush()
     if thorough:
